@@ -1,17 +1,20 @@
 import TantivyModel.Proofs.Faults
-/-! C11: the storage invariant `J` is kept by every call under every fault plan. -/
+/-! C11: the storage invariant `J` is kept by every call under every fault plan — with one
+proviso when the code syncs the directory again after the rename of `meta.json` (`sy`): while
+`meta.json` is ahead of `active_index_meta` (that barrier failed and nothing was saved since), a
+merge must not fail first in `end_merge`'s `save_metas`. -/
 namespace TantivyModel.Faults
 
 /-- installing a writer whose references all have files -/
-theorem J_install {s : St} (w : Writer) (hm : segsHaveFiles s.metaSegs s.files)
+theorem J_install {sy : Bool} {s : St} (w : Writer) (hm : segsHaveFiles s.metaSegs s.files)
     (hc : segsHaveFiles w.committed s.files) (hu : segsHaveFiles w.uncommitted s.files)
-    (ha : segsHaveFiles w.active s.files) (hk : w.killed = false → w.active = s.metaSegs) :
-    J { s with writer := some w } := ⟨hm, hc, hu, ha, hk⟩
+    (ha : segsHaveFiles w.active s.files) (hk : w.killed = false → Mirrors sy s w) :
+    J sy { s with writer := some w } := ⟨hm, hc, hu, ha, hk⟩
 
-theorem J_newFiles_install {s : St} (w : Writer) (hm : segsHaveFiles s.metaSegs s.files)
+theorem J_newFiles_install {sy : Bool} {s : St} (w : Writer) (hm : segsHaveFiles s.metaSegs s.files)
     (hc : segsHaveFiles w.committed s.files) (hu : segsHaveFiles w.uncommitted s.files)
-    (ha : segsHaveFiles w.active s.files) (hk : w.killed = false → w.active = s.metaSegs) :
-    J { (newFiles s) with writer := some w } :=
+    (ha : segsHaveFiles w.active s.files) (hk : w.killed = false → Mirrors sy s w) :
+    J sy { (newFiles s) with writer := some w } :=
   ⟨segsHaveFiles_cons _ hm, segsHaveFiles_cons _ hc, segsHaveFiles_cons _ hu, segsHaveFiles_cons _ ha, hk⟩
 
 theorem segsHaveFiles_append {a b : List Seg} {files : List Nat}
@@ -21,26 +24,47 @@ theorem segsHaveFiles_append {a b : List Seg} {files : List Nat}
   · exact ha g h
   · exact hb g h
 
-theorem J_updaterCommit (f : Plan) (s : St) (w : Writer)
+/-- `segment_manager.commit` only adds to the committed register -/
+theorem mirrors_commitRegs {sy : Bool} {s : St} {w : Writer} (h : Mirrors sy s w) :
+    Mirrors sy s (commitRegs w) := by
+  rcases h with h | ⟨h1, h2⟩
+  · exact Or.inl h
+  · exact Or.inr ⟨h1, fun g hg => List.mem_append_left _ (h2 g hg)⟩
+
+theorem J_updaterCommit (sy : Bool) (f : Plan) (s : St) (w : Writer)
     (hm : segsHaveFiles s.metaSegs s.files)
     (hc : segsHaveFiles w.committed s.files) (hu : segsHaveFiles w.uncommitted s.files)
-    (ha : segsHaveFiles w.active s.files) (hk : w.killed = false → w.active = s.metaSegs) :
-    J (updaterCommit f s w).1 := by
+    (ha : segsHaveFiles w.active s.files) (hk : w.killed = false → Mirrors sy s w) :
+    J sy (updaterCommit sy f s w).1 := by
+  have hcu := segsHaveFiles_append hc hu
   unfold updaterCommit
   split
   · exact J_install (markErr w) hm hc hu ha hk
   · split
     · exact J_install (markErr w) hm hc hu ha hk
     · split
-      · exact J_install (markErr (commitRegs w)) hm (segsHaveFiles_append hc hu)
-          (by intro g hg; simp [markErr, commitRegs] at hg) ha hk
-      · rename_i hkil _ _
-        have hcu := segsHaveFiles_append hc hu
-        apply J_gcRun f _ (published w) rfl
-        · exact ⟨hcu, hcu, by intro g hg; simp [published, commitRegs] at hg, hcu, fun _ => rfl⟩
-        · simpa [published, commitRegs] using hkil
+      · exact J_install (markErr (commitRegs w)) hm hcu
+          (by intro g hg; simp [markErr, commitRegs] at hg) ha (fun h => mirrors_commitRegs (hk h))
+      · split
+        · rename_i hsy
+          have hsy' : sy = true := by
+            cases sy <;> simp at hsy ⊢
+          exact ⟨hcu, hcu, by intro g hg; simp [markErr, commitRegs] at hg, ha,
+            fun _ => Or.inr ⟨hsy', fun g hg => hg⟩⟩
+        · rename_i hkil _ _ _
+          apply J_gcRun sy f _ (published w) rfl
+          · exact ⟨hcu, hcu, by intro g hg; simp [published, commitRegs] at hg, hcu, fun _ => Or.inl rfl⟩
+          · simpa [published, commitRegs] using hkil
 
-theorem J_call (cap : Nat) (f : Plan) (s : St) (c : Call) (hj : J s) : J (call cap f s c).1 := by
+/-- a merge that fails first in `end_merge`'s `save_metas` (after the registers were swapped) -/
+def mergeSaveFirst (f : Plan) : Bool := !f .mergeThread && !f .endMergePurge && f .endMergeSave
+
+/-- the proviso of the invariant for one call in state `s` -/
+def SafeStep (s : St) (f : Plan) (c : Call) : Prop :=
+  ∀ w, s.writer = some w → w.killed = false → w.active ≠ s.metaSegs → c = .merge → mergeSaveFirst f = false
+
+theorem J_call (sy : Bool) (cap : Nat) (f : Plan) (s : St) (c : Call) (hj : J sy s)
+    (hsafe : SafeStep s f c) : J sy (call sy cap f s c).1 := by
   obtain ⟨hm, hw⟩ := hj
   cases c with
   | newWriter =>
@@ -57,7 +81,7 @@ theorem J_call (cap : Nat) (f : Plan) (s : St) (c : Call) (hj : J s) : J (call c
           · simpa [J, hs] using hm
           · split
             · simpa [J, hs, releaseLock] using hm
-            · exact J_install (freshWriter s) hm hm (by intro g hg; simp [freshWriter] at hg) hm (fun _ => rfl)
+            · exact J_install (freshWriter s) hm hm (by intro g hg; simp [freshWriter] at hg) hm (fun _ => Or.inl rfl)
   | add d =>
     simp only [call]
     cases hs : s.writer with
@@ -84,15 +108,15 @@ theorem J_call (cap : Nat) (f : Plan) (s : St) (c : Call) (hj : J s) : J (call c
       obtain ⟨hc, hu, ha, hk⟩ := hw
       simp only
       split
-      · exact J_updaterCommit f s _ hm hc hu ha hk
+      · exact J_updaterCommit sy f s _ hm hc hu ha hk
       · split
         · exact J_install _ hm hc hu ha hk
         · split
           · exact J_newFiles_install _ hm hc hu ha hk
           · unfold flushS flushW
             split
-            · exact J_updaterCommit f s _ hm hc hu ha hk
-            · apply J_updaterCommit f (newFiles s)
+            · exact J_updaterCommit sy f s _ hm hc hu ha hk
+            · apply J_updaterCommit sy f (newFiles s)
               · exact segsHaveFiles_cons _ hm
               · exact segsHaveFiles_cons _ hc
               · apply segsHaveFiles_append (segsHaveFiles_cons _ hu)
@@ -114,7 +138,7 @@ theorem J_call (cap : Nat) (f : Plan) (s : St) (c : Call) (hj : J s) : J (call c
       · exact J_install { w with killed := true } hm hc hu ha (by simp)
       · split
         · exact J_install (markErr { w with guard := false, killed := true }) hm hc hu ha (by simp [markErr])
-        · exact J_install (freshWriter s) hm hm (by intro g hg; simp [freshWriter] at hg) hm (fun _ => rfl)
+        · exact J_install (freshWriter s) hm hm (by intro g hg; simp [freshWriter] at hg) hm (fun _ => Or.inl rfl)
   | dropWriter =>
     simp only [call]
     cases hs : s.writer with
@@ -137,24 +161,40 @@ theorem J_call (cap : Nat) (f : Plan) (s : St) (c : Call) (hj : J s) : J (call c
           cases hh : w.killed <;> simp [hh] at hkil ⊢
         split
         · exact J_newFiles_install (markErr w) hm hc hu ha hk
-        · split
+        · rename_i hmt
+          split
           · exact J_newFiles_install (markErr w) hm hc hu ha hk
-          · have hnew : segsHaveFiles [(⟨s.nextSeg, content w.committed⟩ : Seg)] (newFiles s).files := by
+          · rename_i hep
+            have hnew : segsHaveFiles [(⟨s.nextSeg, content w.committed⟩ : Seg)] (newFiles s).files := by
               intro g hg
               simp only [List.mem_singleton] at hg
               subst hg
               simp [newFiles]
             split
-            · exact ⟨segsHaveFiles_cons _ hm, hnew, segsHaveFiles_cons _ hu, segsHaveFiles_cons _ ha, hk⟩
-            · apply J_gcRun f _ (mergedPublished s w) rfl
-              · exact ⟨hnew, hnew, segsHaveFiles_cons _ hu, hnew, fun _ => rfl⟩
-              · simpa [mergedPublished, mergedRegs] using hkil'
+            · -- `end_merge` swapped the registers, `save_metas` failed: `meta.json` must still be
+              -- mirrored by `active_index_meta`
+              rename_i hes
+              refine ⟨segsHaveFiles_cons _ hm, hnew, segsHaveFiles_cons _ hu, segsHaveFiles_cons _ ha, ?_⟩
+              intro _
+              by_cases hact : w.active = s.metaSegs
+              · exact Or.inl hact
+              · have := hsafe w hs hkil' hact rfl
+                simp [mergeSaveFirst, hmt, hep, hes] at this
+            · split
+              · rename_i hsy
+                have hsy' : sy = true := by
+                  cases sy <;> simp at hsy ⊢
+                exact ⟨hnew, hnew, segsHaveFiles_cons _ hu, segsHaveFiles_cons _ ha,
+                  fun _ => Or.inr ⟨hsy', fun g hg => hg⟩⟩
+              · apply J_gcRun sy f _ (mergedPublished s w) rfl
+                · exact ⟨hnew, hnew, segsHaveFiles_cons _ hu, hnew, fun _ => Or.inl rfl⟩
+                · simpa [mergedPublished, mergedRegs] using hkil'
   | gc =>
     simp only [call]
     cases hs : s.writer with
     | none => simpa [J, hs] using hm
     | some w =>
-      have hj : J s := ⟨hm, hw⟩
+      have hj : J sy s := ⟨hm, hw⟩
       rw [hs] at hw
       obtain ⟨hc, hu, ha, hk⟩ := hw
       simp only
@@ -162,7 +202,7 @@ theorem J_call (cap : Nat) (f : Plan) (s : St) (c : Call) (hj : J s) : J (call c
       · exact J_install (markErr w) hm hc hu ha hk
       · rename_i hkil
         have hkil' : w.killed = false := by simpa using hkil
-        have hg := J_gcRun f s w hs hj hkil'
+        have hg := J_gcRun sy f s w hs hj hkil'
         split
         · exact hg
         · obtain ⟨h1, h2⟩ := hg
@@ -179,8 +219,38 @@ theorem J_call (cap : Nat) (f : Plan) (s : St) (c : Call) (hj : J s) : J (call c
     · exact ⟨hm, hw⟩
     · exact ⟨hm, hw⟩
 
-theorem J_run (cap : Nat) (F : Nat → Plan) (i : Nat) (s : St) (cs : List Call) (h : J s) :
-    J (run cap F i s cs).1 :=
-  run_inv J cap (fun f s c => J_call cap f s c) F i s cs h
+/-- without the second sync `meta.json` never runs ahead of `active_index_meta`: no proviso -/
+theorem safeStep_of_nosync {s : St} (hj : J false s) (f : Plan) (c : Call) : SafeStep s f c := by
+  intro w hw hk hne
+  obtain ⟨_, hrest⟩ := hj
+  rw [hw] at hrest
+  rcases hrest.2.2.2 hk with h | ⟨h, _⟩
+  · exact absurd h hne
+  · cases h
+
+/-- the proviso along a run -/
+def Safe (sy : Bool) (cap : Nat) (F : Nat → Plan) : Nat → St → List Call → Prop
+  | _, _, [] => True
+  | i, s, c :: cs => SafeStep s (F i) c ∧ Safe sy cap F (i + 1) (call sy cap (F i) s c).1 cs
+
+theorem J_run (sy : Bool) (cap : Nat) (F : Nat → Plan) (i : Nat) (s : St) (cs : List Call) (h : J sy s)
+    (hs : Safe sy cap F i s cs) : J sy (run sy cap F i s cs).1 := by
+  induction cs generalizing i s with
+  | nil => exact h
+  | cons c cs ih =>
+    rw [run_cons]
+    exact ih (i + 1) _ (J_call sy cap (F i) s c h hs.1) hs.2
+
+theorem safe_of_nosync (cap : Nat) (F : Nat → Plan) (i : Nat) (s : St) (cs : List Call) (h : J false s) :
+    Safe false cap F i s cs := by
+  induction cs generalizing i s with
+  | nil => trivial
+  | cons c cs ih =>
+    have hs := safeStep_of_nosync h (F i) c
+    exact ⟨hs, ih (i + 1) _ (J_call false cap (F i) s c h hs)⟩
+
+theorem J_run_nosync (cap : Nat) (F : Nat → Plan) (i : Nat) (s : St) (cs : List Call) (h : J false s) :
+    J false (run false cap F i s cs).1 :=
+  J_run false cap F i s cs h (safe_of_nosync cap F i s cs h)
 
 end TantivyModel.Faults
